@@ -1,3 +1,6 @@
 //! Independent codecs for the cross-language image formats, written from the published layouts.
+pub mod cpc;
+pub mod fi;
 pub mod hll;
 pub mod tdigest;
+pub mod theta;
